@@ -266,6 +266,34 @@ func init() {
 				if n != len(buf) || !bytes.Equal(m, buf) || merr != nil || k != len(buf) || !bytes.Equal(dst[:k], buf) || ext.MarshalSize() != len(buf) {
 					o.Fail = "the view does not re-serialise the block byte-identically"
 				}
+				// the ids and values of the block, walked here from the RFC 8285 layout
+				wantIDs, wantVals := walkRfc8285Block(buf, op == 303)
+				if len(got) != len(wantIDs) {
+					o.Fail = fmt.Sprintf("view GetIDs = %v, the block holds %v", got, wantIDs)
+				} else {
+					for i := range got {
+						if got[i] != wantIDs[i] {
+							o.Fail = fmt.Sprintf("view GetIDs = %v, the block holds %v", got, wantIDs)
+						}
+					}
+				}
+				for id := 0; id < 256; id++ {
+					var want []byte
+					found := false
+					for i, x := range wantIDs {
+						if int(x) == id {
+							want, found = wantVals[i], true
+							break
+						}
+					}
+					if op == 302 && id > 14 || op == 303 && id == 0 {
+						continue
+					}
+					v := ext.Get(uint8(id))
+					if found != (v != nil) && !(found && len(want) == 0) || found && !bytes.Equal(v, want) {
+						o.Fail = fmt.Sprintf("view Get(%d) = %x, the block holds %x (present=%v)", id, v, want, found)
+					}
+				}
 			})
 			if pn {
 				o.Impl, o.Fail = PanicV(), "panic on a well-formed block: "+what
@@ -437,4 +465,36 @@ func u32Equal(a, b []uint32) bool {
 		}
 	}
 	return true
+}
+
+// walkRfc8285Block lists the elements of an exact extension block (4-byte header + body) in order.
+func walkRfc8285Block(blk []byte, twoByte bool) (ids []uint8, vals [][]byte) {
+	body := blk[4:]
+	for i := 0; i < len(body); {
+		if body[i] == 0 {
+			i++
+			continue
+		}
+		var id, l int
+		if twoByte {
+			if i+1 >= len(body) {
+				break
+			}
+			id, l = int(body[i]), int(body[i+1])
+			i += 2
+		} else {
+			id, l = int(body[i]>>4), int(body[i]&0xF)+1
+			i++
+			if id == 15 {
+				break
+			}
+		}
+		if i+l > len(body) {
+			break
+		}
+		ids = append(ids, uint8(id))
+		vals = append(vals, body[i:i+l])
+		i += l
+	}
+	return ids, vals
 }
